@@ -172,3 +172,10 @@ def run(ctx):
              "let), caller/callee arities 0..4, rest parameters, direct/apply/call-cc/eval calls, cycles of 1..3 "
              "procedures: value = iteration count and max_sp(n) equal for n = 10, 10^3, 2*10^4 (quick) or 10^5 "
              "(thorough; 5000 when eval recompiles each step)")
+
+
+# ROUND 8: the Ext laws are theorems for a table of real builtins (lib/props/procinv_util.py, Lemmas/ListExtC04.lean)
+import procinv_util as _pv8
+MODULE = _pv8.listext_module("C04")
+THEOREMS = THEOREMS + [t for t in _pv8.LISTEXT_LAWS + _pv8.LISTEXT["C04"] if t not in THEOREMS]
+META["note"] = META["note"] + _pv8.LISTEXT_NOTE
